@@ -117,6 +117,13 @@ var propSpecs = map[string]*PropSpec{
 		TrustedBase: []string{"the integer part of Duration.Hours/Minutes/Seconds is the exact integer quotient", "fmt %d prints the integer it is given", "ParseDuration: bounded enumeration only (see coverage.bounded)"},
 		Extra:       c37Extra,
 	},
+	"C32": {
+		Patterns:    []string{"./..."},
+		Level:       "proof",
+		Explanation: "every return of FindRoute that picks one of several candidates by a first-match scan is reached only after sortCandidates put the candidates (collected in map order) into the canonical order; when candidates differ in their number of path variables the route returned has the fewest (inductive invariant over the counting loop); Route.Lock returns the route it was given; structural table obligation: one map range, nothing carried between its iterations but the list, no clock or random source",
+		TrustedBase: []string{"sort.Slice orders the slice by the comparison it is given; sortCandidates' comparison (endpoint length, endpoint, any-method last, method) is a strict total order on routes because endpoint and method together are the key of the route table", "meta-lemma: a deterministic scan over a canonically ordered list of a set is a function of the set", "the per-route matching block reads only the route, the method and the path (structural obligation)"},
+		Extra:       c32Extra,
+	},
 	"C27": {
 		Patterns: []string{"./..."},
 		Level:    "proof",
